@@ -215,28 +215,17 @@ func IDs() []string {
 	return s
 }
 
-// RepoFrame returns the innermost stack frame inside the repository for a panic stack.
+// RepoFrame returns the innermost non-runtime frame of a panic stack that belongs to the repository or to one of its
+// dependencies (harness frames are skipped); repository frames are shown without the module prefix.
 func RepoFrame(stack string) string {
-	lines := strings.Split(stack, "\n")
-	for i := 0; i+1 < len(lines); i++ {
-		l := lines[i]
-		if strings.HasPrefix(l, "github.com/taurusgroup/multi-party-sig/") && !strings.Contains(l, "/verif/") {
-			fn := l
-			if j := strings.LastIndex(fn, "("); j > 0 {
-				fn = fn[:j]
-			}
-			fn = strings.TrimPrefix(fn, "github.com/taurusgroup/multi-party-sig/")
-			return fn
+	for _, l := range strings.Split(stack, "\n") {
+		if !strings.HasPrefix(l, "github.com/") || strings.Contains(l, "multi-party-sig/verif/") {
+			continue
 		}
-	}
-	// fall back to first third-party frame
-	for _, l := range lines {
-		if strings.HasPrefix(l, "github.com/") && !strings.Contains(l, "/verif/") {
-			if j := strings.LastIndex(l, "("); j > 0 {
-				l = l[:j]
-			}
-			return l
+		if j := strings.LastIndex(l, "("); j > 0 {
+			l = l[:j]
 		}
+		return strings.TrimPrefix(l, "github.com/taurusgroup/multi-party-sig/")
 	}
 	return "unknown"
 }
@@ -246,6 +235,9 @@ func Guard(f func()) (panicked bool, frame string, text string) {
 	defer func() {
 		if r := recover(); r != nil {
 			st := string(debug.Stack())
+			if s, ok := r.(interface{ StackText() string }); ok {
+				st = s.StackText() // the panic happened in another goroutine: use its stack
+			}
 			panicked = true
 			frame = RepoFrame(st)
 			text = fmt.Sprint(r)
